@@ -20,7 +20,7 @@ DISTINCT = ('config_cells',)
 REQUIRED = ('wrapper_calls', 'signatures', 'repeat_calls_served_from_cache', 'key_pairs_compared', 'expiry_cases',
             'expire_zero_cases', 'falsy_results', 'decorator_cache', 'decorator_fanout', 'decorator_index',
             'decorator_django', 'decorator_stampede', 'derived_name_cases', 'contended_first_calls',
-            'decorator_objects_reused', 'stacked_memoizations')
+            'decorator_objects_reused', 'stacked_memoizations', 'repeats_with_keywords_reordered', 'failing_function_cases')
 ASSUMPTIONS = ('two calls are "the same arguments" when positional/keyword binding matches and values are equal under == '
                '(and have equal types when typed); ignored positions/names are removed first',
                'memoize_stampede: the probe runs in ~0 virtual time so early recomputation has probability ~0')
@@ -228,6 +228,20 @@ def sweep(dc, sc, res, kind, typed, ignore, named, sigs, label):
                 p.execs - execs, len(sample), typed, sorted(map(str, ignore)), kind), {'label': label})
         else:
             res.count('repeat_calls_served_from_cache', len(sample))
+        # the same call with its keyword arguments written in another order is the same call
+        execs = p.execs
+        two = [sg for sg in sigs if len(sg[1]) > 1]
+        sample = two[::max(1, len(two) // 150)]
+        for args, kwargs in sample:
+            w(*args, **dict(reversed(list(kwargs.items()))))
+            res.count('wrapper_calls')
+            res.count('evaluations')
+        if p.execs != execs:
+            res.violation('%d of %d calls repeated with their keyword arguments in another order executed the function again '
+                          '(typed=%r ignore=%r %s)' % (p.execs - execs, len(sample), typed, sorted(map(str, ignore)), kind),
+                          {'label': label})
+        else:
+            res.count('repeats_with_keywords_reordered', len(sample))
         # calls differing only in ignored arguments share the entry
         if 0 in ignore:
             e = p.execs
@@ -251,6 +265,10 @@ def sweep(dc, sc, res, kind, typed, ignore, named, sigs, label):
     finally:
         closer()
         sc.drop(d)
+
+
+class MemoizedFunctionFailed(Exception):
+    pass
 
 
 def extras(dc, sc, res, kind, label):
@@ -303,6 +321,36 @@ def extras(dc, sc, res, kind, label):
             if cnt[0] != 1 or r1 != val or r2 != val or type(r2) is not type(val):
                 res.violation('%s: falsy result %r: executed %d times, returned %r then %r' % (kind, val, cnt[0], r1, r2),
                               {'label': label})
+
+        # (5b) a function that fails: the caller gets its exception, nothing is remembered for those arguments, and the
+        # next call runs the function again - whose result is then remembered as usual
+        for exc_type in (ValueError, KeyError, KeyboardInterrupt, MemoizedFunctionFailed):
+            runs = []
+
+            def flaky(x, runs=runs, exc_type=exc_type):
+                runs.append(x)
+                if len(runs) <= 2:
+                    raise exc_type('failed on run %d' % len(runs))
+                return ('flaky', x, len(runs))
+            flaky.__qualname__ = 'flaky_%s' % exc_type.__name__
+            w = deco(flaky)
+            n0 = len(cache)
+            outcomes = []
+            for _ in range(4):
+                try:
+                    outcomes.append(('ok', w('arg')))
+                except exc_type as exc:
+                    outcomes.append(('raise', type(exc).__name__))
+                if len(outcomes) == 2 and len(cache) != n0:
+                    res.violation('%s: two failed calls of a memoized function left %d new entries in the cache' % (
+                        kind, len(cache) - n0), {'label': label, 'exception': exc_type.__name__})
+            res.count('failing_function_cases')
+            res.count('evaluations')
+            want = [('raise', exc_type.__name__)] * 2 + [('ok', ('flaky', 'arg', 3))] * 2
+            if outcomes != want or len(runs) != 3:
+                res.violation('%s: a memoized function that fails twice and then succeeds gave %r over four calls and ran %d '
+                              'times; expected %r and 3 runs' % (kind, outcomes, len(runs), want),
+                              {'label': label, 'exception': exc_type.__name__})
 
         # derived names: two different functions never share entries
         def scope1():
